@@ -1,13 +1,15 @@
 """Translator for C19 (and C04): regenerates coq/Gen/KeepaliveParams.v from /repo's AST.
 
-Extracted: the monitor's sleep period and counter_start (jug/backends/file_keepalive_monitor.py
-main()), the expiry of file_keepalive_based_lock.is_failed and file_based_lock._FAILED_TIMESTAMP
-(jug/backends/file_store.py).  Also matched (no constants): the keep-alive lock's fail / release / get /
-start_monitor / stop_monitor, whose order of primitives and Popen call Model/Keepalive.v transcribes.
+Extracted CONSTANTS (fail closed: TranslateError when one cannot be found or is not a compile-time constant): the
+argument of the one sleep() call in the monitor's main(), the value the counter that is decremented by one is started
+and restarted with, the number subtracted from time() in file_keepalive_based_lock.is_failed, and
+file_based_lock._FAILED_TIMESTAMP.  They are found by their role, not by their spelling: literals, constant arithmetic,
+names of module- or class-level single-assignment constants, annotated assignments, `from m import f` or `m.f`.
 
-Fail closed: the functions the model transcribes are matched against AST templates in which only
-the constants are holes.  A different loop order, comparison operator, exception class, argument of
-utime, ... raises TranslateError (treated like a broken proof by the checks)."""
+STRUCTURE (loop order, comparison operators, order of the primitives of fail/release/get, the Popen call) is compared
+with the shapes the model was transcribed from after normalising annotations, local names, super() spellings and logging
+arguments; a difference is reported by structure_notes() as a NOTE of the check, not as a failure: the behaviour of the
+real loop and lock class is compared with the model by C19's simulated-clock correspondence on every run."""
 import ast
 
 from .translate import extractor, parse, TranslateError
@@ -115,15 +117,18 @@ def stop_monitor(self):
 _SKIP_FIELDS = ('ctx', 'type_comment', 'kind', 'lineno', 'col_offset', 'end_lineno', 'end_col_offset')
 
 
-def const_eval(node, where):
-    """Value of a constant integer expression (literals, + - * //, unary -, parentheses)."""
+def const_eval(node, where, env=None):
+    """Value of a constant integer expression (literals, names of single-assignment constants in `env`, + - * //,
+    unary -, parentheses)."""
     if isinstance(node, ast.Constant) and type(node.value) is int:
         return node.value
+    if isinstance(node, ast.Name) and env is not None and node.id in env:
+        return env[node.id]
     if isinstance(node, ast.UnaryOp) and isinstance(node.op, (ast.USub, ast.UAdd)):
-        v = const_eval(node.operand, where)
+        v = const_eval(node.operand, where, env)
         return -v if isinstance(node.op, ast.USub) else v
     if isinstance(node, ast.BinOp) and isinstance(node.op, (ast.Add, ast.Sub, ast.Mult, ast.FloorDiv)):
-        a, b = const_eval(node.left, where), const_eval(node.right, where)
+        a, b = const_eval(node.left, where, env), const_eval(node.right, where, env)
         if isinstance(node.op, ast.Add):
             return a + b
         if isinstance(node.op, ast.Sub):
@@ -143,9 +148,13 @@ def strip_docstring(body):
     return body
 
 
-def match(tmpl, node, binds, where):
+def match(tmpl, node, binds, where, lenient_holes=False):
     """Structural equality of two ASTs up to HOLE_<name> names in the template."""
     if isinstance(tmpl, ast.Name) and tmpl.id.startswith('HOLE_'):
+        if lenient_holes:
+            if not isinstance(node, ast.expr):
+                raise TranslateError('%s: expected an expression' % where)
+            return
         name = tmpl.id[len('HOLE_'):]
         v = const_eval(node, where)
         if name in binds and binds[name] != v:
@@ -162,14 +171,14 @@ def match(tmpl, node, binds, where):
             a, b = getattr(tmpl, f, None), getattr(node, f, None)
             if f == 'body' and isinstance(tmpl, (ast.FunctionDef, ast.ClassDef, ast.Module)):
                 a, b = strip_docstring(a), strip_docstring(b)
-            match(a, b, binds, '%s.%s' % (where, f))
+            match(a, b, binds, '%s.%s' % (where, f), lenient_holes)
         return
     if isinstance(tmpl, list):
         if not isinstance(node, list) or len(tmpl) != len(node):
             raise TranslateError('%s: expected %d items, found %s' % (
                 where, len(tmpl), len(node) if isinstance(node, list) else type(node).__name__))
         for i, (a, b) in enumerate(zip(tmpl, node)):
-            match(a, b, binds, '%s[%d]' % (where, i))
+            match(a, b, binds, '%s[%d]' % (where, i), lenient_holes)
         return
     if tmpl != node:
         raise TranslateError('%s: expected %r, found %r' % (where, tmpl, node))
@@ -238,44 +247,242 @@ def no_rebinding(fn, names, where):
             raise TranslateError('%s: global/nonlocal declaration of %s' % (where, sorted(set(x.names) & set(names))))
 
 
-def extract():
+# ------------------------------------------------------------------------------------------------
+# constants: found by what they ARE in the program (the argument of sleep() in main(), the value the refresh counter
+# is (re)started with, the number subtracted from time() in is_failed, _FAILED_TIMESTAMP), whatever they are called
+# and wherever they are spelled out; fail closed when one cannot be found or is not a compile-time constant
+def module_env(mod, where):
+    """name -> int for module-level names bound exactly once (Assign / AnnAssign) to a constant integer expression over
+    earlier such names; a name assigned anywhere else (global declaration in a function) is not a constant"""
+    how = toplevel_bindings(mod)
+    reassigned = set()
+    for x in ast.walk(mod):
+        if isinstance(x, (ast.Global, ast.Nonlocal)):
+            reassigned.update(x.names)
+    env = {}
+    for n in mod.body:
+        if isinstance(n, ast.Assign) and len(n.targets) == 1 and isinstance(n.targets[0], ast.Name):
+            name, val = n.targets[0].id, n.value
+        elif isinstance(n, ast.AnnAssign) and isinstance(n.target, ast.Name) and n.value is not None:
+            name, val = n.target.id, n.value
+        else:
+            continue
+        if how.get(name) != 'assign' or name in reassigned:
+            continue
+        try:
+            env[name] = const_eval(val, where, env)
+        except TranslateError:
+            pass
+    return env
+
+
+def class_env(cls, menv, where):
+    env = {}
+    count = {}
+    for n in cls.body:
+        if isinstance(n, ast.Assign) and len(n.targets) == 1 and isinstance(n.targets[0], ast.Name):
+            name, val = n.targets[0].id, n.value
+        elif isinstance(n, ast.AnnAssign) and isinstance(n.target, ast.Name) and n.value is not None:
+            name, val = n.target.id, n.value
+        else:
+            continue
+        count[name] = count.get(name, 0) + 1
+        try:
+            env[name] = const_eval(val, where, dict(menv, **env))
+        except TranslateError:
+            env.pop(name, None)
+    return {k: v for k, v in env.items() if count[k] == 1}
+
+
+def is_call_to(node, module, name, how):
+    """is `node` a call of <module>.<name>: the bare name bound by `from module import name` or the attribute of the
+    module bound by `import module`?"""
+    if not isinstance(node, ast.Call):
+        return False
+    f = node.func
+    if isinstance(f, ast.Name):
+        return f.id == name and how.get(name) == 'from %s import %s' % (module, name)
+    if isinstance(f, ast.Attribute) and isinstance(f.value, ast.Name):
+        return f.attr == name and how.get(f.value.id) == 'import %s' % module
+    return False
+
+
+def assigned_names(fn):
+    out = {}
+    for x in ast.walk(fn):
+        if isinstance(x, ast.Assign):
+            for t in x.targets:
+                for y in ast.walk(t):
+                    if isinstance(y, ast.Name):
+                        out.setdefault(y.id, []).append(x.value)
+        elif isinstance(x, (ast.AugAssign, ast.AnnAssign)) and isinstance(x.target, ast.Name):
+            out.setdefault(x.target.id, []).append(x)
+        elif isinstance(x, (ast.For, ast.comprehension)) :
+            for y in ast.walk(x.target):
+                if isinstance(y, ast.Name):
+                    out.setdefault(y.id, []).append(None)
+    return out
+
+
+def extract_constants():
     binds = {}
-    # ---- the monitor -----------------------------------------------------------------------
+    # ---- the monitor: sleep(<period>) in main(); the counter that is decremented by 1 is (re)started with <rounds>
     mon = parse(MONITOR)
-    require_bindings(mon, {'utime': 'from os import utime', 'getppid': 'from os import getppid',
-                           'kill': 'from os import kill', 'sleep': 'from time import sleep',
-                           'argv': 'from sys import argv', 'main': 'def', 'parent_gone_or_changed': 'def'}, MONITOR)
-    match(tmpl_stmt(T_PARENT_GONE), find_one(mon.body, ast.FunctionDef, 'parent_gone_or_changed', MONITOR), binds,
-          MONITOR + ':parent_gone_or_changed')
-    match(tmpl_stmt(T_MAIN), find_one(mon.body, ast.FunctionDef, 'main', MONITOR), binds, MONITOR + ':main')
-    # ---- the lock classes --------------------------------------------------------------------
+    how = toplevel_bindings(mon)
+    menv = module_env(mon, MONITOR)
+    main = find_one(mon.body, ast.FunctionDef, 'main', MONITOR)
+    where = MONITOR + ':main'
+    sleeps = [x for x in ast.walk(main) if is_call_to(x, 'time', 'sleep', how)]
+    if len(sleeps) != 1 or len(sleeps[0].args) != 1 or sleeps[0].keywords:
+        raise TranslateError('%s: expected exactly one call sleep(<seconds>), found %d' % (where, len(sleeps)))
+    asg = assigned_names(main)
+    # locals of main() that are bound once to a constant expression (e.g. counter_start = 60)
+    lenv = dict(menv)
+    for name, vals in asg.items():
+        if len(vals) == 1 and isinstance(vals[0], ast.expr):
+            try:
+                lenv[name] = const_eval(vals[0], where, menv)
+            except TranslateError:
+                pass
+    for name in asg:
+        if name in lenv and len(asg[name]) != 1:
+            del lenv[name]
+    binds['period'] = const_eval(sleeps[0].args[0], where + ': argument of sleep()', lenv)
+    dec = [x for x in ast.walk(main) if isinstance(x, ast.AugAssign) and isinstance(x.op, ast.Sub) and isinstance(x.target, ast.Name)]
+    if len(dec) != 1 or const_eval(dec[0].value, where, lenv) != 1:
+        raise TranslateError('%s: expected exactly one statement `<counter> -= 1`, found %d' % (where, len(dec)))
+    counter = dec[0].target.id
+    starts = [v for v in asg.get(counter, []) if isinstance(v, ast.expr)]
+    if len(starts) < 2 or len(starts) + 1 != len(asg[counter]):
+        raise TranslateError('%s: the counter %s is expected to be set before the loop and reset at a refresh (found %d assignments)'
+                             % (where, counter, len(starts)))
+    vals = set(const_eval(v, where + ': value assigned to ' + counter, lenv) for v in starts)
+    if len(vals) != 1:
+        raise TranslateError('%s: the counter %s is started with different values %s' % (where, counter, sorted(vals)))
+    binds['rounds'] = vals.pop()
+    # ---- the lock classes: time() - <expiry> in file_keepalive_based_lock.is_failed; file_based_lock._FAILED_TIMESTAMP
     fs = parse(FILE_STORE)
-    require_bindings(fs, {'os': 'import os', 'sys': 'import sys', 'time': 'from time import time', 'Popen': 'from subprocess import Popen',
-                          'file_based_lock': 'class', 'file_keepalive_based_lock': 'class'}, FILE_STORE)
+    fhow = toplevel_bindings(fs)
+    fenv = module_env(fs, FILE_STORE)
     base = find_one(fs.body, ast.ClassDef, 'file_based_lock', FILE_STORE)
     ka = find_one(fs.body, ast.ClassDef, 'file_keepalive_based_lock', FILE_STORE)
     if [ast.dump(b) for b in ka.bases] != [ast.dump(ast.Name(id='file_based_lock', ctx=ast.Load()))]:
         raise TranslateError(FILE_STORE + ': file_keepalive_based_lock is expected to derive from file_based_lock only')
-    ts = [n for n in base.body if isinstance(n, ast.Assign) and any(
-        isinstance(t, ast.Name) and t.id == '_FAILED_TIMESTAMP' for t in n.targets)]
-    if len(ts) != 1:
-        raise TranslateError(FILE_STORE + ': expected exactly one assignment of _FAILED_TIMESTAMP in file_based_lock')
-    match(tmpl_stmt(T_FAILED_TS), ts[0], binds, FILE_STORE + ':file_based_lock._FAILED_TIMESTAMP')
-    for n in ast.walk(ka):
-        if isinstance(n, (ast.Name, ast.Attribute)) and isinstance(getattr(n, 'ctx', None), (ast.Store, ast.Del)) and \
-                (getattr(n, 'id', None) == '_FAILED_TIMESTAMP' or getattr(n, 'attr', None) == '_FAILED_TIMESTAMP'):
-            raise TranslateError(FILE_STORE + ': file_keepalive_based_lock rebinds _FAILED_TIMESTAMP')
-    match(tmpl_stmt(T_FAIL), find_one(base.body, ast.FunctionDef, 'fail', FILE_STORE), binds, FILE_STORE + ':file_based_lock.fail')
-    match(tmpl_stmt(T_IS_FAILED), find_one(ka.body, ast.FunctionDef, 'is_failed', FILE_STORE), binds,
-          FILE_STORE + ':file_keepalive_based_lock.is_failed')
-    for name, tmpl in (('fail', T_KA_FAIL), ('release', T_KA_RELEASE), ('get', T_KA_GET), ('start_monitor', T_START_MONITOR),
-                       ('stop_monitor', T_STOP_MONITOR)):
-        match(tmpl_stmt(tmpl), find_one(ka.body, ast.FunctionDef, name, FILE_STORE), binds,
-              FILE_STORE + ':file_keepalive_based_lock.' + name)
-    for k in ('rounds', 'period', 'expiry', 'failed_atime', 'failed_mtime'):
-        if k not in binds:
-            raise TranslateError('constant %s was not found' % k)
+    ts = [n for n in base.body if (isinstance(n, ast.Assign) and any(isinstance(t, ast.Name) and t.id == '_FAILED_TIMESTAMP' for t in n.targets))
+          or (isinstance(n, ast.AnnAssign) and isinstance(n.target, ast.Name) and n.target.id == '_FAILED_TIMESTAMP')]
+    if len(ts) != 1 or not isinstance(ts[0].value, ast.Tuple) or len(ts[0].value.elts) != 2:
+        raise TranslateError(FILE_STORE + ': expected exactly one assignment _FAILED_TIMESTAMP = (<atime>, <mtime>) in file_based_lock')
+    cenv = dict(fenv, **class_env(base, fenv, FILE_STORE))
+    binds['failed_atime'] = const_eval(ts[0].value.elts[0], FILE_STORE + ':_FAILED_TIMESTAMP[0]', cenv)
+    binds['failed_mtime'] = const_eval(ts[0].value.elts[1], FILE_STORE + ':_FAILED_TIMESTAMP[1]', cenv)
+    stores = [n for n in ast.walk(fs) if isinstance(n, (ast.Name, ast.Attribute)) and isinstance(getattr(n, 'ctx', None), (ast.Store, ast.Del))
+              and (getattr(n, 'id', None) == '_FAILED_TIMESTAMP' or getattr(n, 'attr', None) == '_FAILED_TIMESTAMP')]
+    if len(stores) != 1:
+        raise TranslateError(FILE_STORE + ': _FAILED_TIMESTAMP is bound %d times' % len(stores))
+    isf = find_one(ka.body, ast.FunctionDef, 'is_failed', FILE_STORE)
+    where = FILE_STORE + ':file_keepalive_based_lock.is_failed'
+    kenv = dict(cenv, **class_env(ka, fenv, FILE_STORE))
+    subs = [x for x in ast.walk(isf) if isinstance(x, ast.BinOp) and isinstance(x.op, ast.Sub) and is_call_to(x.left, 'time', 'time', fhow)]
+    if len(subs) != 1:
+        raise TranslateError('%s: expected exactly one expression time() - <expiry>, found %d' % (where, len(subs)))
+    right = subs[0].right
+    if isinstance(right, ast.Attribute) and isinstance(right.value, ast.Name) and right.value.id in ('self', 'file_keepalive_based_lock', 'type(self)'):
+        if right.attr not in kenv:
+            raise TranslateError('%s: %s.%s is not a class-level constant' % (where, right.value.id, right.attr))
+        binds['expiry'] = kenv[right.attr]
+    else:
+        binds['expiry'] = const_eval(right, where + ': expiry', kenv)
     return binds
+
+
+# ------------------------------------------------------------------------------------------------
+# structure: the exact shapes the model was written from.  A difference is NOT a failure of the translation (the
+# simulated-clock runs of C19 compare the behaviour of the real loop / lock class with the model on every case):
+# it is reported as a note.  Normalised before matching: annotations, names of locals and parameters, super(C, self)
+# vs super(), arguments of logging.<level>(...), docstrings.
+class _Normalise(ast.NodeTransformer):
+    def __init__(self, cls=None):
+        self.cls = cls
+        self.names = {}
+
+    def local(self, name):
+        return self.names.setdefault(name, '_v%d' % len(self.names))
+
+    def visit_FunctionDef(self, node):
+        node.returns = None
+        node.body = strip_docstring(node.body)
+        bound = set(a.arg for a in node.args.args + node.args.kwonlyargs + node.args.posonlyargs)
+        for x in ast.walk(node):
+            if isinstance(x, ast.Name) and isinstance(x.ctx, ast.Store):
+                bound.add(x.id)
+            elif isinstance(x, ast.ExceptHandler) and x.name:
+                bound.add(x.name)
+        self.bound = bound
+        for a in node.args.args + node.args.kwonlyargs + node.args.posonlyargs:
+            a.annotation = None
+            a.arg = self.local(a.arg)
+        self.generic_visit(node)
+        return node
+
+    def visit_Name(self, node):
+        if node.id in getattr(self, 'bound', ()):
+            node.id = self.local(node.id)
+        return node
+
+    def visit_ExceptHandler(self, node):
+        if node.name:
+            node.name = self.local(node.name)
+        self.generic_visit(node)
+        return node
+
+    def visit_AnnAssign(self, node):
+        self.generic_visit(node)
+        if node.value is not None and node.simple:
+            return ast.copy_location(ast.Assign(targets=[node.target], value=node.value), node)
+        return node
+
+    def visit_Call(self, node):
+        self.generic_visit(node)
+        f = node.func
+        if isinstance(f, ast.Name) and f.id == 'super' and not node.args and not node.keywords and self.cls:
+            node.args = [ast.Name(id=self.cls, ctx=ast.Load()), ast.Name(id=self.local('self'), ctx=ast.Load())]
+        if isinstance(f, ast.Attribute) and isinstance(f.value, ast.Name) and f.value.id == 'logging':
+            node.args, node.keywords = [], []
+        return node
+
+
+def normalised(fn, cls=None):
+    import copy
+    return _Normalise(cls).visit(copy.deepcopy(fn))
+
+
+def structure_notes():
+    """[str]: where the source is not one of the shapes the model was transcribed from (empty: all recognised)"""
+    notes = []
+    try:
+        mon = parse(MONITOR)
+        fs = parse(FILE_STORE)
+        base = find_one(fs.body, ast.ClassDef, 'file_based_lock', FILE_STORE)
+        ka = find_one(fs.body, ast.ClassDef, 'file_keepalive_based_lock', FILE_STORE)
+    except TranslateError as e:
+        return ['structure not examined: %s' % e]
+    todo = [(T_PARENT_GONE, mon.body, 'parent_gone_or_changed', None, MONITOR), (T_MAIN, mon.body, 'main', None, MONITOR),
+            (T_FAIL, base.body, 'fail', 'file_based_lock', FILE_STORE), (T_IS_FAILED, ka.body, 'is_failed', 'file_keepalive_based_lock', FILE_STORE)]
+    todo += [(t, ka.body, n, 'file_keepalive_based_lock', FILE_STORE) for n, t in
+             (('fail', T_KA_FAIL), ('release', T_KA_RELEASE), ('get', T_KA_GET), ('start_monitor', T_START_MONITOR), ('stop_monitor', T_STOP_MONITOR))]
+    for tmpl, body, name, cls, rel in todo:
+        where = '%s:%s%s' % (rel, cls + '.' if cls else '', name)
+        try:
+            fn = find_one(body, ast.FunctionDef, name, rel)
+            match(normalised(tmpl_stmt(tmpl), cls), normalised(fn, cls), {}, where, lenient_holes=True)
+        except TranslateError as e:
+            notes.append('%s is not written in the shape the model was transcribed from (%s); its behaviour is covered by the '
+                         'simulated-clock correspondence only' % (where, str(e)[-160:]))
+    return notes
+
+
+def extract():
+    return extract_constants()
 
 
 def zc(v):
@@ -287,7 +494,7 @@ def render(b):
      jug/backends/file_keepalive_monitor.py   main():  sleep(%(period)d) ; counter = counter_start = %(rounds)d
      jug/backends/file_store.py               file_keepalive_based_lock.is_failed:  st_mtime <= time() - %(expiry)d
                                               file_based_lock._FAILED_TIMESTAMP = (%(failed_atime)d, %(failed_mtime)d)
-   Structure facts checked by the translator (AST templates, anything else is a translator failure):
+   Shapes the model was transcribed from (compared leniently, see harness/translate_c19.py; behaviour is tied by C19's runs):
      loop order  sleep ; parent_gone_or_changed -> break ; counter -= 1 ; if counter <= 0: reset, utime(lock, None),
      OSError -> break ;  parent_gone_or_changed = (getppid() != pid or == 1) or kill(pid, 0) raises OSError ;
      is_failed = is_locked() and st_mtime <= time() - expiry ;  file_based_lock.fail() = os.utime(fullname, _FAILED_TIMESTAMP) ;
